@@ -542,17 +542,22 @@ theorem og_select_guard (ns : Ns) (ts : List CallTemplate) (t : CallTemplate)
     · rename_i hg; cases h; exact hg
     · exact ih h
 
-/-- the sub-commands with graph arguments of the end-to-end theorem: standard options, and every path of the helper
-either raises an exception `cli()` shields or makes a call of the right shape -/
-def graphCovered (s : CliSpec) : Bool :=
-  s.standard && s.templates.all (fun t => (t.raises != "" && shielded t.raises) || og_shapeOK s t)
+/-- a path of the helper that raises an exception `cli()` shields, or makes a call of the right shape -/
+def pathCovered (s : CliSpec) (t : CallTemplate) : Bool :=
+  (t.raises != "" && shielded t.raises) || og_shapeOK s t
 
-/-- the path of the helper on a namespace the parser produced: a shielded `raise`, or a call `evalCallG` maps -/
-theorem og_path (s : CliSpec) (hstd : s.standard = true) (hs : s ∈ cliSpecs) (hc : graphCovered s = true)
+/-- the sub-commands with graph arguments of the end-to-end theorem: standard options, and every path covered -/
+def graphCovered (s : CliSpec) : Bool :=
+  s.standard && s.templates.all (pathCovered s)
+
+/-- the path of the helper on a namespace the parser produced: when covered, a shielded `raise`, or a call
+`evalCallG` maps -/
+theorem og_path (s : CliSpec) (hstd : s.standard = true) (hs : s ∈ cliSpecs)
     (argv : List String) (b : Ns) (h : parseArgs s argv = .ok b) (env : GraphEnv) :
     ∃ t ∈ s.templates, dispatchTemplate s argv = .ok (t, namespaceOf s b) ∧
-      ((t.raises ≠ "" ∧ instantiate (namespaceOf s b) t = .error .cliError) ∨
-       (∃ c, instantiate (namespaceOf s b) t = .ok c ∧ (evalCallG env (namespaceOf s b) c).isSome = true)) := by
+      (pathCovered s t = true →
+        ((t.raises ≠ "" ∧ instantiate (namespaceOf s b) t = .error .cliError) ∨
+         (∃ c, instantiate (namespaceOf s b) t = .ok c ∧ (evalCallG env (namespaceOf s b) c).isSome = true))) := by
   have ht := (List.all_eq_true.1 standard_commands_totalClassExt) s (List.mem_filter.2 ⟨hs, hstd⟩)
   unfold totalClassExt at ht
   simp only [Bool.and_eq_true] at ht
@@ -571,9 +576,8 @@ theorem og_path (s : CliSpec) (hstd : s.standard = true) (hs : s ∈ cliSpecs) (
     rw [hsel]
     rfl
   refine ⟨t, htm, hd, ?_⟩
-  unfold graphCovered at hc
-  simp only [Bool.and_eq_true] at hc
-  have hct := List.all_eq_true.1 hc.2 t htm
+  intro hct
+  unfold pathCovered at hct
   simp only [Bool.or_eq_true, Bool.and_eq_true, bne_iff_ne] at hct
   rcases hct with ⟨hne, hsh⟩ | hsh
   · left
